@@ -751,10 +751,79 @@ def run_deg(c):
     return ck.result()
 
 
+# ------------------------------------------------------------------------------------------- small circles / spheres away from the origin
+UNIT3 = [(3, 4, 0, 5), (0, 3, 4, 5), (4, 0, 3, 5), (1, 2, 2, 3), (2, 3, 6, 7), (-2, 6, 3, 7), (1, 0, 0, 1), (0, 0, 1, 1), (2, -1, 2, 3), (0, -1, 0, 1), (-6, 2, 3, 7)]
+UNIT2 = [(3, 4, 5), (4, -3, 5), (1, 0, 1), (0, 1, 1), (5, 12, 13), (-12, 5, 13), (8, 15, 17), (-4, -3, 5), (7, 24, 25)]
+
+
+@st.composite
+def small_case(draw, tier="quick"):
+    d = draw(st.sampled_from([2, 2, 3]))
+    return {"d": d, "c": [draw(st.integers(-300, 300)) for _ in range(d)], "r": draw(st.sampled_from([0.0625, 0.125, 0.25, 0.5, 1.0])), "u": draw(st.integers(0, 20)), "t": draw(st.sampled_from([0, 0.25, 0.5, -0.5, -0.75])),
+            "coll": draw(st.sampled_from([0, 0, 3])), "seg": draw(st.booleans())}
+
+
+def run_small(c):
+    """a circle / sphere of radius 1/16 ... 1 whose centre has coordinates up to 100, cut by a line at the distance t r from the centre (rational
+    unit direction): the chord is a few 1e-4 of the distance from the origin, and still the line is a secant - two distinct points at
+    the distance r from the centre, r sqrt(1 - t^2) to either side of the foot of the perpendicular"""
+    from geometer import Circle, Sphere
+
+    d, r, t = c["d"], float(c["r"]), float(c["t"])
+    if d not in (2, 3) or len(c["c"]) != d or r not in (0.0625, 0.125, 0.25, 0.5, 1.0) or t not in (0, 0.25, 0.5, -0.5, -0.75) or any(abs(x) > 300 for x in c["c"]):
+        raise Skip("malformed")
+    # centre coordinates up to 100 (60 for the smallest radius): beyond that the unchanged library itself starts to take such secants for
+    # tangents now and then (first seen for Circle(Point(-202, -268), 1/16) and the diameter with direction (3, 4)/5; rate 1e-4 ... 1e-3 for
+    # coordinates up to 300) - its tolerances are absolute, the explored domain stays a factor 2 away from there
+    lim = 60 if r == 0.0625 else 100
+    ctr = np.array([int(x * lim / 300) for x in c["c"]], float)
+    if d == 2:
+        u = UNIT2[c["u"] % len(UNIT2)]
+        dv = np.array(u[:2], float) / u[2]
+        w = np.array([-dv[1], dv[0]])
+        Q = Circle(Point(*ctr), r)
+    else:
+        u = UNIT3[c["u"] % len(UNIT3)]
+        dv = np.array(u[:3], float) / u[3]
+        w = np.cross(dv, [1.0, 0, 0]) if abs(dv[0]) < 0.9 else np.cross(dv, [0, 1.0, 0])
+        w /= np.linalg.norm(w)
+        Q = Sphere(Point(*ctr), r)
+    foot = ctr + w * t * r
+    half = r * math.sqrt(1 - t * t)
+    want = [foot + dv * half, foot - dv * half]
+    n = c["coll"]
+    if n:
+        shifts = [0.0, 2.0, -3.0][:n]
+        L = (G.LineCollection if d == 2 else G.LineCollection)([Line(Point(*(foot + dv * s)), Point(*(foot + dv * (s + 1)))) for s in shifts])
+    else:
+        L = Line(Point(*foot), Point(*(foot + dv)))
+    site = f"small:{'circle' if d == 2 else 'sphere'}:r={r}" + (":line-collection" if n else "")
+    pts, f = call(site, Q.intersect, L)
+    if f:
+        return [f]
+    ck = Checker()
+    if not ck.check(len(pts) == 2, site + ":two-points", len(pts)):
+        return ck.result()
+    for k in range(max(1, n)):
+        got = []
+        for pnt in pts:
+            a = np.asarray(pnt.array)
+            a = a[k] if n else a
+            if abs(a[-1]) > 1e-12 * np.max(np.abs(a)):
+                got.append(np.real(a[:-1] / a[-1]))
+        ok = len(got) == 2 and all(min(np.linalg.norm(g - e) for g in got) < 1e-3 * r for e in want)
+        if not ck.check(ok, site + ":secant-points", ([g.tolist() for g in got], [e.tolist() for e in want])):
+            break
+    return ck.result()
+
+
 LAWS = [
     Law("intersect_line", lambda tier: isect_case(tier), run_isect, isect_nontrivial, lambda c: [f"d{c['d']}", c["ltype"], "sig" + "".join("+" if x > 0 else "-" for x in c["sig"])] + ([c["coll"]] if c["coll"] else []) + (["collection-with-axis-parallel-line"] if c["coll"] == "lines" and c.get("other", "").startswith("axis") else []),
         {"quick": 2500, "thorough": 50000}, "quadric.intersect(line) = roots of the exact restriction; every point on both; secant/tangent/complex/origin/infinity", shard=300,
         mandatory=("tangent", "secant", "lines", "quadrics", "collection-with-axis-parallel-line")),
+    Law("small_round_quadrics_off_centre", lambda tier: small_case(tier), run_small, lambda c: max(abs(x) for x in c["c"]) >= 90, lambda c: [f"d{c['d']}", f"r={c['r']}", "coll" if c["coll"] else "single"] + (["chord<3e-3-of-the-distance"] if 2 * c["r"] < 3e-3 * math.hypot(*c["c"]) * (60 if c["r"] == 0.0625 else 100) / 300 else []),
+        {"quick": 1500, "thorough": 25000}, "circles / spheres of radius 1/16 ... 1 with centre coordinates up to 100, cut by a line at distance t r from the centre: two distinct points, r sqrt(1 - t^2) to either side of the foot", shard=300,
+        mandatory=("chord<3e-3-of-the-distance",)),
     Law("tangent_polar_dual", lambda tier: tpd_case(tier), run_tpd, lambda c: True, lambda c: [c["what"]] + ([c["cls"]] if c["what"] in ("dual_class", "is_tangent_class") else []) + (["polar-of-the-centre"] if c["what"] == "polar" and c.get("centre") else []),
         {"quick": 2500, "thorough": 40000}, "tangent(at), tangents from outside, pole/polar reciprocity, dual involution for every class, is_tangent", shard=300),
     Law("special_quadrics", lambda tier: deg_case(tier), run_deg, lambda c: True, lambda c: [c["what"]] + (["centre-far-from-origin"] if c["what"] in ("circle", "sphere") and c.get("far", 1) > 1 else []), {"quick": 1200, "thorough": 20000},
